@@ -192,3 +192,122 @@ Section Dot.
     rewrite loop_pre_dot by lia. reflexivity.
   Qed.
 End Dot.
+
+(* ------------------------------------------------------------ arrays as locations: any aliasing of the array arguments *)
+Lemma sset_length (st : store) l v : (l < length st)%nat -> length (sset st l v) = length st.
+Proof.
+  unfold sset. revert l. induction st as [|a st IH]; intros l Hl; cbn [length] in Hl; [lia|].
+  destruct l as [|l]; cbn [firstn skipn app length]; [reflexivity|]. f_equal. apply IH. lia.
+Qed.
+Lemma sget_sset_same (st : store) l v : (l < length st)%nat -> sget (sset st l v) l = v.
+Proof.
+  unfold sget, sset. revert l. induction st as [|a st IH]; intros l Hl; cbn [length] in Hl; [lia|].
+  destruct l as [|l]; cbn [firstn skipn app nth]; [reflexivity|]. apply IH. lia.
+Qed.
+Lemma sget_sset_other (st : store) l l' v : (l < length st)%nat -> l' <> l -> sget (sset st l v) l' = sget st l'.
+Proof.
+  unfold sget, sset. revert l l'. induction st as [|a st IH]; intros l l' Hl Hne; cbn [length] in Hl; [lia|].
+  destruct l as [|l]; destruct l' as [|l']; cbn [firstn skipn app nth]; try reflexivity; try lia.
+  apply IH; lia.
+Qed.
+
+Section LoopL.
+  Variable st0 : store.
+  Variables lr la lb : nat.
+  Variable op : Z -> Z -> Z -> Z.
+  Variable sz : Z.
+  Let L := length (sget st0 lr).
+  Let F (j : nat) : Z := op (nth j (sget st0 la) 0) (nth j (sget st0 lb) 0) (nth j (sget st0 lr) 0).
+  Hypothesis lr_in : (lr < length st0)%nat.
+  Hypothesis sz_r : 0 <= sz <= Z.of_nat L.
+  Hypothesis sz_a : sz <= Z.of_nat (length (sget st0 la)).
+  Hypothesis sz_b : sz <= Z.of_nat (length (sget st0 lb)).
+
+  (* indices i .. sz-1 of the destination are done, everything else is as in the initial store *)
+  Definition InvL (i : Z) (cur : store) : Prop :=
+    length cur = length st0 /\ (forall l, l <> lr -> sget cur l = sget st0 l) /\ length (sget cur lr) = L /\
+    forall j, (j < L)%nat ->
+      nth j (sget cur lr) 0 = if (i <=? Z.of_nat j) && (Z.of_nat j <? sz) then F j else nth j (sget st0 lr) 0.
+
+  Lemma InvL_read i cur l : InvL i cur -> forall j, 0 <= j < i -> j < Z.of_nat (length (sget st0 l)) ->
+    rd (sget cur l) j = Some (nth (Z.to_nat j) (sget st0 l) 0).
+  Proof.
+    intros [Hlen [Hoth [HL Hn]]] j Hj Hjl.
+    destruct (Nat.eq_dec l lr) as [->|Hne].
+    - rewrite rd_in by (rewrite HL; fold L in Hjl; lia). f_equal.
+      rewrite Hn by (fold L in Hjl; lia).
+      destruct (Z.leb_spec i (Z.of_nat (Z.to_nat j))); [lia|]. reflexivity.
+    - rewrite (Hoth l Hne). apply rd_in. lia.
+  Qed.
+
+  Lemma loopL_spec : forall fuel i cur, 0 <= i <= sz -> (Z.to_nat i < fuel)%nat -> InvL i cur ->
+    exists st', loopL fuel i (bodyL op lr la lb) cur = Some st' /\ InvL 0 st'.
+  Proof.
+    induction fuel as [|fuel IH]; intros i cur Hi Hf HI; [lia|].
+    cbn [loopL]. destruct (Z.eqb_spec i 0) as [->|Hne]; [exists cur; split; [reflexivity|exact HI]|].
+    unfold bodyL.
+    rewrite (InvL_read i cur la HI (i - 1)) by lia.
+    rewrite (InvL_read i cur lb HI (i - 1)) by lia.
+    rewrite (InvL_read i cur lr HI (i - 1)) by (fold L; lia).
+    destruct HI as [Hlen [Hoth [HL Hn]]].
+    set (v := op _ _ _).
+    apply IH; [lia|lia|].
+    assert (Hlr : (lr < length cur)%nat) by lia.
+    split; [rewrite sset_length by exact Hlr; exact Hlen|].
+    split; [intros l Hl; rewrite sget_sset_other by assumption; apply Hoth; exact Hl|].
+    rewrite sget_sset_same by exact Hlr.
+    split; [rewrite upd_length by lia; exact HL|].
+    intros j Hj. rewrite upd_nth by lia. rewrite (Hn j Hj).
+    destruct (Nat.eqb_spec j (Z.to_nat (i - 1))) as [Ej|Ej].
+    - destruct (Z.leb_spec (i - 1) (Z.of_nat j)); [|lia]. destruct (Z.ltb_spec (Z.of_nat j) sz); [|lia].
+      cbn [andb]. subst v. unfold F. rewrite Ej. reflexivity.
+    - destruct (Z.leb_spec (i - 1) (Z.of_nat j)); destruct (Z.leb_spec i (Z.of_nat j)); try lia; reflexivity.
+  Qed.
+
+  Lemma arrL_spec : exists st', arrL op lr la lb sz st0 = Some st' /\ InvL 0 st'.
+  Proof.
+    unfold arrL. apply loopL_spec; [lia|fold L; lia|].
+    split; [reflexivity|]. split; [reflexivity|]. split; [reflexivity|].
+    intros j Hj. destruct (Z.leb_spec sz (Z.of_nat j)); destruct (Z.ltb_spec (Z.of_nat j) sz); try lia; reflexivity.
+  Qed.
+End LoopL.
+
+(* every one of the sixteen forms (code 0..15), ANY assignment of its array arguments to locations (all aliasing patterns): the call
+   returns; the destination holds, at every index below sz, the element macro applied to the operands AS THEY WERE BEFORE THE CALL
+   (so the result is the one of the call with three distinct arrays of the same contents), the rest of the destination and every
+   other array are unchanged *)
+Definition array_forms_aliasing_spec (mun mo : Z) (plun : Z -> Z) : Prop :=
+  forall (name s t : Z) (st : store) (lr la lb : nat) (sz : Z),
+    (lr < length st)%nat -> 0 <= sz <= Z.of_nat (length (sget st lr)) ->
+    sz <= Z.of_nat (length (sget st la)) -> sz <= Z.of_nat (length (sget st lb)) ->
+    exists st', arrL (arr_elem mun mo plun name s t) lr la lb sz st = Some st' /\
+      length st' = length st /\ (forall l, l <> lr -> sget st' l = sget st l) /\
+      length (sget st' lr) = length (sget st lr) /\
+      forall j, (j < length (sget st lr))%nat ->
+        nth j (sget st' lr) 0 =
+          if Z.of_nat j <? sz
+          then arr_elem mun mo plun name s t (nth j (sget st la) 0) (nth j (sget st lb) 0) (nth j (sget st lr) 0)
+          else nth j (sget st lr) 0.
+Lemma array_forms_aliasing_ok mun mo plun : array_forms_aliasing_spec mun mo plun.
+Proof.
+  intros name s t st lr la lb sz Hlr Hsz Ha Hb.
+  destruct (arrL_spec st lr la lb (arr_elem mun mo plun name s t) sz Hlr Hsz Ha Hb) as [st' [E [H1 [H2 [H3 H4]]]]].
+  exists st'. split; [exact E|]. split; [exact H1|]. split; [exact H2|]. split; [exact H3|].
+  intros j Hj. rewrite (H4 j Hj). destruct (Z.leb_spec 0 (Z.of_nat j)); [|lia]. reflexivity.
+Qed.
+(* the location model agrees with the list model of the same form on distinct arrays (code 4 = add as the instance) *)
+Example arrL_add_distinct : forall mun mo plun r x y, length x = length r -> length y = length r ->
+  option_map (fun st' => sget st' 0) (arrL (arr_elem mun mo plun 4 0 0) 0 1 2 (Z.of_nat (length r)) [r; x; y]) <> None.
+Proof.
+  intros mun mo plun r x y Hx Hy.
+  destruct (array_forms_aliasing_ok mun mo plun 4 0 0 [r; x; y] 0%nat 1%nat 2%nat (Z.of_nat (length r))) as [st' [E _]];
+    cbn [length sget nth]; try lia. rewrite E. discriminate.
+Qed.
+
+(* HISTORY: the body before fix-9 passed b[i] as an lvalue; with r == b the ADD macro re-reads its own partial result.
+   GF(5), generator 2 (tables of mk_tables 5 1 5 2): 1 + 1 (reps) must be the rep 2 (2 + 2 = 4 = 2^2), the aliased text gives -2 *)
+Definition array_add_aliased_b_refuted : Prop :=
+  let T := mk_tables 5 1 5 2 in
+  gfq_add (t_one T) (plun_of T) 1 1 = 2 /\ gfq_add_c_aliases_b (t_one T) (plun_of T) 1 1 = -2.
+Lemma array_add_aliased_b_is_wrong : array_add_aliased_b_refuted.
+Proof. vm_compute. split; reflexivity. Qed.
